@@ -334,6 +334,9 @@ def winding_symmetry(prog, rep):
                     conds.append(r[1])
             if not ok:
                 continue
+            if not walkd and isinstance(sm.ret, tuple) and sm.ret[0] == "call" and sm.ret[1].split("::")[-1] in ("any", "find", "position", "all") and \
+                    any(n[0] == "call" and n[1].endswith("PointsIter>::points") for n in walk(sm.ret)):
+                walkd = True     # the search over the edge points handed back as it is (its predicate came in as a parameter)
             kind = "edge-walk" if walkd else ("inside" if sm.ret == ("const", True) else ("outside" if sm.ret == ("const", False) else "?"))
             if kind == "?":
                 raise Unknown("result %s" % show(sm.ret, maxd=3))
